@@ -3,6 +3,9 @@ import Ivg.Lemmas.Codec
 import Ivg.Gen.Tie.Dc1
 import Ivg.Gen.Tie.DrawOps
 import Ivg.Gen.Tie.Magic
+import Ivg.Gen.Tie.Code.Color
+import Ivg.Gen.Tie.Code.EncColors
+import Ivg.Gen.Tie.Code.DecColors
 import Ivg.Obligations
 /-!
 # C09 — colours are stored exactly; colour forms and blending follow the tables
@@ -291,4 +294,65 @@ end Ivg.Props.C09
   Ivg.Props.C09.table1_creg, Ivg.Props.C09.table1_wf, Ivg.Props.C09.table2, Ivg.Props.C09.table34,
   Ivg.Props.C09.blend_formula, Ivg.Props.C09.blend_resolve, Ivg.Props.C09.blend_ends,
   Ivg.Props.C09.blend_resolve_ends, Ivg.Props.C09.blend_mono, Ivg.Props.C09.blend_premul,
-  Ivg.Gen.Tie.dc1Table_tie, Ivg.Gen.Tie.drawOps_tie, Ivg.Gen.Tie.magic_tie]
+  Ivg.Gen.Tie.dc1Table_tie, Ivg.Gen.Tie.drawOps_tie, Ivg.Gen.Tie.magic_tie,
+  -- regenerated code (translator, Ivg/Gen/Code) = model, for all inputs: Color, EncColors, DecColors
+  Ivg.Gen.Tie.rGBAColor_code_tie,
+  Ivg.Gen.Tie.paletteIndexColor_code_tie,
+  Ivg.Gen.Tie.cRegColor_code_tie,
+  Ivg.Gen.Tie.blendColor_code_tie,
+  Ivg.Gen.Tie.decodeColor1_code_tie,
+  Ivg.Gen.Tie.is1_1_code_tie,
+  Ivg.Gen.Tie.is2_1_code_tie,
+  Ivg.Gen.Tie.is1_code_tie,
+  Ivg.Gen.Tie.is2_code_tie,
+  Ivg.Gen.Tie.is3_code_tie,
+  Ivg.Gen.Tie.validAlphaPremulColor_code_tie,
+  Ivg.Gen.Tie.validGradient_code_tie,
+  Ivg.Gen.Tie.encodeGradient_code_tie,
+  Ivg.Gen.Tie.decodeGradient_code_tie,
+  Ivg.Gen.Tie.color_Is1_code_tie,
+  Ivg.Gen.Tie.color_Is2_code_tie,
+  Ivg.Gen.Tie.color_Is3_code_tie,
+  Ivg.Gen.Tie.color_RGBA_code_tie,
+  Ivg.Gen.Tie.color_Encode1_code_tie,
+  Ivg.Gen.Tie.color_Encode2_code_tie,
+  Ivg.Gen.Tie.color_Encode3Direct_code_tie,
+  Ivg.Gen.Tie.color_Encode4_code_tie,
+  Ivg.Gen.Tie.color_Encode3Indirect_code_tie,
+  Ivg.Gen.Tie.color_rgba_code_tie,
+  Ivg.Gen.Tie.color_paletteIndex_code_tie,
+  Ivg.Gen.Tie.color_cReg_code_tie,
+  Ivg.Gen.Tie.color_blend_code_tie,
+  Ivg.Gen.Tie.color_Is1_code_tie_badTyp,
+  Ivg.Gen.Tie.color_Is2_code_tie_badTyp,
+  Ivg.Gen.Tie.color_Is3_code_tie_badTyp,
+  Ivg.Gen.Tie.color_RGBA_code_tie_badTyp,
+  Ivg.Gen.Tie.color_Encode1_code_tie_badTyp,
+  Ivg.Gen.Tie.color_Encode2_code_tie_badTyp,
+  Ivg.Gen.Tie.color_Encode3Direct_code_tie_badTyp,
+  Ivg.Gen.Tie.color_Encode4_code_tie_badTyp,
+  Ivg.Gen.Tie.color_Encode3Indirect_code_tie_badTyp,
+  Ivg.Gen.Tie.dc1Table_code_tie,
+  Ivg.Gen.Tie.defaultViewBox_code_tie,
+  Ivg.Gen.Tie.defaultPalette_code_tie,
+  Ivg.Gen.Tie.defaultMetadata_code_tie,
+  Ivg.Gen.Tie.encodeColor1_code_tie,
+  Ivg.Gen.Tie.encodeColor2_code_tie,
+  Ivg.Gen.Tie.encodeColor3Direct_code_tie,
+  Ivg.Gen.Tie.encodeColor4_code_tie,
+  Ivg.Gen.Tie.encodeColor3Indirect_code_tie,
+  Ivg.Gen.Tie.encodeColor1_code_tie_badTyp,
+  Ivg.Gen.Tie.encodeColor2_code_tie_badTyp,
+  Ivg.Gen.Tie.encodeColor3Direct_code_tie_badTyp,
+  Ivg.Gen.Tie.encodeColor4_code_tie_badTyp,
+  Ivg.Gen.Tie.encodeColor3Indirect_code_tie_badTyp,
+  Ivg.Gen.Tie.buffer_decodeColor1_code_tie,
+  Ivg.Gen.Tie.decodeColor2_code_tie,
+  Ivg.Gen.Tie.decodeColor3Direct_code_tie,
+  Ivg.Gen.Tie.decodeColor4_code_tie,
+  Ivg.Gen.Tie.decodeColor3Indirect_code_tie,
+  Ivg.Gen.Tie.buffer_decodeColor1_model_eq,
+  Ivg.Gen.Tie.decodeColor2_model_eq,
+  Ivg.Gen.Tie.decodeColor3Direct_model_eq,
+  Ivg.Gen.Tie.decodeColor4_model_eq,
+  Ivg.Gen.Tie.decodeColor3Indirect_model_eq]
